@@ -2,9 +2,9 @@
 # tools/mut.sh <prop> <sessions> <file> <sed-expr>: apply a one-line mutant in the scratch worktree /var/tmp/mut and run a check against it
 P=$1; N=$2; F=$3; E=$4
 cd /var/tmp/mut || exit 2
-git reset -q --hard HEAD
+git reset -q --hard HEAD; git checkout -q --detach main
 sed -i "$E" "$F"
 if git diff --quiet; then echo "MUTANT DID NOT APPLY: $F $E"; exit 3; fi
 git diff | grep '^[-+][^-+]' | head -4
 (cd /verif && VERIF_REPO=/var/tmp/mut ./check "$P" --sessions "$N" --no-evidence 2>&1 | grep -A1 -E "VIOLATION|^OK|HARNESS" | head -6)
-git reset -q --hard HEAD
+git reset -q --hard HEAD; git checkout -q --detach main
